@@ -240,7 +240,8 @@ def gen_broker_case(rng, stream='valid', n_ops=None, exact=False, fee=None, npf=
                     # the fee model is assigned to the broker's public attribute after construction
                     'fee_late': rng.random() < 0.15,
                     # the documented slippage_model option is given an object (it is accepted and unused)
-                    'slippage_probe': rng.random() < 0.1},
+                    'slippage_probe': rng.random() < 0.1,
+                    'qty_kind': rng.choice(['int', 'int', 'int', 'np', 'float'])},
             'quotes': quotes, 'ops': ops, 'exact': exact, 'assets': assets}
     if rng.random() < 0.12:
         case = rc.recase(case, rc.mapping(rng))          # symbols with lower-case letters
